@@ -45,7 +45,7 @@ func rulesC05(p *Prog, r *Report) {
 	for _, f := range p.RList {
 		for _, b := range f.Blocks {
 			for _, in := range b.Instrs {
-				if c, ok := in.(*ssa.Call); ok && c.Call.StaticCallee() == parseOp && len(c.Call.Args) == 2 {
+				if c, ok := in.(*ssa.Call); ok && (c.Call.StaticCallee() != nil && opMatcherSet(p)[c.Call.StaticCallee()]) && len(c.Call.Args) == 2 {
 					if s, ok := constString(c.Call.Args[1]); ok {
 						asked[s] = c.Pos()
 					} else if prm, isPrm := c.Call.Args[1].(*ssa.Parameter); isPrm {
@@ -445,7 +445,7 @@ func ruleG8(p *Prog, r *Report) {
 		for _, b := range f.Blocks {
 			for _, in := range b.Instrs {
 				c, ok := in.(*ssa.Call)
-				if !ok || c.Call.StaticCallee() != parseOp || len(c.Call.Args) < 2 {
+				if !ok || (c.Call.StaticCallee() == nil || !opMatcherSet(p)[c.Call.StaticCallee()]) || len(c.Call.Args) < 2 {
 					continue
 				}
 				if s, ok := constString(c.Call.Args[1]); ok && s == "+" {
